@@ -299,4 +299,12 @@ def tieFree (ax : Axis) (n : Nat) (useNeighbourLists : Bool) : Bool :=
   distinctB (ids.map ax.ctr) &&
     (if useNeighbourLists then distinctB (ids.map ax.opn) else distinctB (ids.map ax.cls))
 
+/-- Since CmpNodePos breaks ties between equal centres by variable id (rank := id, ids distinct),
+    equal centres no longer make the result address dependent.  What remains unspecified is the
+    order qsort leaves same-type events at one position in; it can change the emitted multiset
+    only through two Closes (pointer sweeps) / two Opens (neighbour-list sweep) at one position. -/
+def orderFree (ax : Axis) (n : Nat) (useNeighbourLists : Bool) : Bool :=
+  let ids := List.range n
+  if useNeighbourLists then distinctB (ids.map ax.opn) else distinctB (ids.map ax.cls)
+
 end AdaptaVerif.Model.Scanline
